@@ -303,7 +303,7 @@ impl DeserializeEmbeddedGroup for TransactionOutput {
         let data_hash = match raw.cbor_type() {
             Ok(cbor_event::Type::Bytes) => {
                 let initial_position = raw.as_mut_ref().seek(SeekFrom::Current(0)).unwrap();
-                let bytes = raw.bytes().unwrap();
+                let bytes = raw.bytes()?;
                 if bytes.len() == DataHash::BYTE_COUNT {
                     Some(DataOption::DataHash(DataHash(bytes[..DataHash::BYTE_COUNT].try_into().unwrap())))
                 } else {
